@@ -104,6 +104,11 @@ func (k Keeper) UpdateNSTBalance(
 						return true, err
 					}
 					slashShare := delegationAmount.UndelegatableShare.Mul(slashProportion)
+					if !slashShare.IsPositive() {
+						// nothing is delegated to this operator any more (emptied records are kept),
+						// go on with the next one instead of failing in RemoveShare.
+						return false, nil
+					}
 					actualSlashAmount, err := k.RemoveShare(ctx, false, opAccAddr, stakerID, assetID, slashShare)
 					if err != nil {
 						return true, err
